@@ -223,7 +223,7 @@ def nontrivial(case):
 
 
 def run(ctx, out, replay=None):
-    n = 1200 if ctx.quick() else 20000
+    n = 1200 if ctx.quick() else 15000
     out.rule = ("random netlist documents: 1-8 modules over every attribute combination (scalar / per-region area, centre, "
                 "aspect ratio scalar / pair, rectangles with named regions forming STOGs or not, hard, flip, fixed, terminal "
                 "with/without centre, redundant false flags, bool-as-number), nets of arity 2-6 with/without weight, dyadic "
